@@ -13,7 +13,9 @@ from ..engine import Violation, Ctx
 
 RULE = ("past-time specs (depth<=5, bounds 0..4): typed and untyped random formulas, formulas in which a stateful "
         "sub-formula text is duplicated, and multi-assertion texts whose later assertions reference earlier ones "
-        "(stateful sub-specifications referenced 1-3 times); traces of length 1..12 over small dyadic values. "
+        "(stateful sub-specifications referenced 1-3 times); traces of length 1..12 over small dyadic values; in one case in five "
+        "set_sampling_period() is called again between two updates with the period and unit already configured (only the tolerance "
+        "may differ). "
         "distinct by (spec text, data); non-trivial when the online outputs are not a constant +-inf list.")
 EXPLANATION = ("theorems: C02_run_eq_rho (fresh monitor fed n samples returns rho at every step, all formulas without future "
                "operators), rho_online_prefix (value at t depends on samples <= t only), C02_online_eq_offline (i-th update = "
@@ -126,6 +128,46 @@ def spec_text(case):
     return "out = " + F.to_text(case["f"], bound=bf)
 
 
+TOLERANCES = [0.0, 0.05, 0.1, 0.1, 0.2, 0.25, 0.5, 1.0, None]
+
+
+def gen_reconf(rng, n):
+    """Calls of set_sampling_period() in the middle of a run (before update #k, 1 <= k < n) that repeat the period and the unit
+    configured before the first update; only the tolerance may differ (None: the argument is left out), which concerns the
+    sampling-violation counter alone.  The meaning of the specification is the same before and after such a call, so the values
+    of the later updates are still the offline robustness.  (Calls that change the period or the unit are not generated.)"""
+    ks = sorted(set(rng.randint(1, n - 1) for _ in range(rng.choice([1, 1, 1, 2, 3]))))
+    return [[k, rng.choice(TOLERANCES)] for k in ks]
+
+
+def run_online_reconf(text, variables, data, n, reconf, period=None, extra_decl=(), struct=(), extra_entries=None, limit=20.0):
+    """impl.run_online_discrete with the calls of `reconf` ([[k, tolerance], ...]) made before update #k: same period and unit as
+    configured (the defaults 1 s when none was), payload = list of the update() return values."""
+    per = tuple(period) if period else (1, "s")
+    kw = {"sampling": (per[0], per[1], 0.1)} if period else {}
+    calls = {}
+    for k, tol in reconf:
+        calls.setdefault(int(k), []).append(tol)
+
+    def go():
+        from ..msgs import Msg
+        spec = impl.make_spec("ond", impl.struct_text(text, struct), variables, extra_decl=extra_decl, struct=struct, **kw)
+        spec.parse()
+        outs = []
+        for i in range(n):
+            for tol in (calls.get(i, ()) if i >= 1 else ()):
+                if tol is None:
+                    spec.set_sampling_period(per[0], per[1])
+                else:
+                    spec.set_sampling_period(per[0], per[1], tol)
+            row = [(v, Msg(data[v][i]) if v in struct else data[v][i]) for v in data]
+            if extra_entries:
+                row.insert(min(extra_entries[0], len(row)), (extra_entries[1], 7.0))
+            outs.append(spec.update(i, row))
+        return outs
+    return impl.guarded(go, limit)
+
+
 def run_impl(case):
     text = spec_text(case)
     vs = all_vars(case)
@@ -133,21 +175,29 @@ def run_impl(case):
     data = {v: case["data"][v] for v in vs}
     struct = case.get("struct") or ()
     kw = {"sampling": (case["period"][0], case["period"][1], 0.1)} if case.get("period") else {}
-    on = impl.run_online_discrete(text, vs, data, case["n"], extra_decl=extra, struct=struct, extra_entries=case.get("extra_entries"), **kw)
+    if case.get("reconf"):
+        on = run_online_reconf(text, vs, data, case["n"], case["reconf"], period=case.get("period"), extra_decl=extra, struct=struct,
+                               extra_entries=case.get("extra_entries"))
+    else:
+        on = impl.run_online_discrete(text, vs, data, case["n"], extra_decl=extra, struct=struct, extra_entries=case.get("extra_entries"), **kw)
     off = impl.eval_offline_discrete(text, vs, data, case["n"], extra_decl=extra, struct=struct, **kw)
     return text, on, off
 
 
 def check_case(ctx, case, m_on, m_rho, m_gen=None):
     text, on, off = run_impl(case)
-    rep = {"extra_entries": case.get("extra_entries"), "period": case.get("period"), "struct": list(case.get("struct") or ()), "spec": text, "data": case["data"], "n": case["n"], "formula": F.to_proto(case["f"]),
+    rep = {"reconf": case.get("reconf"), "extra_entries": case.get("extra_entries"), "period": case.get("period"), "struct": list(case.get("struct") or ()), "spec": text, "data": case["data"], "n": case["n"], "formula": F.to_proto(case["f"]),
            "asserts": [[nm, F.to_proto(b)] for nm, b in case["asserts"]] if case["asserts"] else None,
            "monitor": "discrete online", "impl_online": on, "impl_offline": off, "model_online": m_on, "model_rho": m_rho}
     if on[0] != "ok":
         return Violation("update() raised %s on past-time spec %r (n=%d)" % (on[1:], text, case["n"]), rep, stream=case["stream"]), None
     outs = on[1]
+    if case.get("reconf"):
+        text = text + "   [set_sampling_period(%s) repeated with tolerance %s]" % (
+            ", ".join(str(x) for x in (case.get("period") or (1, "s"))),
+            ", ".join("%s before update #%d" % ("left out" if tol is None else tol, k) for k, tol in case["reconf"]))
     if disc.nontrivial(outs):
-        ctx.nontrivial.add(disc.data_key(text, case["data"]))
+        ctx.nontrivial.add(disc.data_key(rep["spec"], case["data"]))
     if m_rho[0] == "undef":
         ctx.skipped_undef += 1
         if m_on[0] == "ok" and not same_vals(outs, m_on[1]):
@@ -200,6 +250,9 @@ def explore(ctx, rng, count):
         c["period"] = rng.choice([(2, "s"), (500, "ms")]) if rng.random() < 0.15 else None
         # an entry that is not an input of the specification somewhere in every row given to update()
         c["extra_entries"] = [rng.randint(0, 3), rng.choice(["aux", "out", "zz9"])] if rng.random() < 0.15 else None
+        # set_sampling_period() called again between two updates with the period and unit already configured (at most the
+        # tolerance differs): the state of the operators and hence the later values must not be affected
+        c["reconf"] = gen_reconf(rng, c["n"]) if c["n"] >= 2 and rng.random() < 0.2 else None
         if not disc.known_region(ctx, c, REGIONS):
             cases.append(c)
         else:
@@ -214,6 +267,8 @@ def explore(ctx, rng, count):
         m_on, m_rho, m_gen = (disc.parse_model(outs[3 * i + k]) for k in range(3))
         ctx.evaluations += 1
         ctx.count("stream:" + c["stream"])
+        if c.get("reconf"):
+            ctx.count("stream:reconfigure-mid-run")
         for op in set(F.ops(c["f"])):
             ctx.count("op:" + op)
         v, d = check_case(ctx, c, m_on, m_rho, m_gen)
@@ -236,7 +291,8 @@ def explore(ctx, rng, count):
 
 def case_of_replay(obj):
     c = {"stream": "replay", "f": F.from_proto(obj["formula"]), "n": obj["n"],
-         "data": {k: [float(x) for x in v] for k, v in obj["data"].items()}, "asserts": None, "struct": obj.get("struct") or [], "period": obj.get("period"), "extra_entries": obj.get("extra_entries")}
+         "data": {k: [float(x) for x in v] for k, v in obj["data"].items()}, "asserts": None, "struct": obj.get("struct") or [], "period": obj.get("period"), "extra_entries": obj.get("extra_entries"),
+         "reconf": obj.get("reconf")}
     if obj.get("asserts"):
         c["asserts"] = [(nm, F.from_proto(b)) for nm, b in obj["asserts"]]
     return c
